@@ -94,42 +94,25 @@ def r_C08_C34(root):
     if so is None: raise AnalysisError("span ordering not found")
     kws = {k.arg: k.value for k in so.keywords}
     rev = ast.unparse(kws["reverse"]) == "True" if "reverse" in kws else False
-    body = kws["key"].body if "key" in kws and isinstance(kws["key"], ast.Lambda) else None
-    arg = kws["key"].args.args[0].arg if body is not None else None
-    if body is None and "key" in kws and isinstance(kws["key"], ast.Name):
-        kf = next((n for n in ast.walk(drv) if isinstance(n, ast.FunctionDef) and n.name == kws["key"].id), None)
-        if kf is not None and kf.args.args:
-            arg = kf.args.args[0].arg
-            rets_ = [r for r in kf.body if isinstance(r, ast.Return)]
-            if len(rets_) == 1:
-                # substitute names bound by tuple unpacking of the argument:  (a, b), _ = x   ->  a = x[0][0], b = x[0][1]
-                env_ = {}
-                for st_ in kf.body:
-                    if isinstance(st_, ast.Assign) and isinstance(st_.targets[0], ast.Tuple) and isinstance(st_.value, ast.Name) and st_.value.id == arg:
-                        for i_, e_ in enumerate(st_.targets[0].elts):
-                            if isinstance(e_, ast.Tuple):
-                                for j_, f_ in enumerate(e_.elts):
-                                    if isinstance(f_, ast.Name): env_[f_.id] = "%s[%d][%d]" % (arg, i_, j_)
-                            elif isinstance(e_, ast.Name): env_[e_.id] = "%s[%d]" % (arg, i_)
-                src_ = ast.unparse(rets_[0].value)
-                import re as _re
-                for k_, v_ in env_.items(): src_ = _re.sub(r"\b%s\b" % k_, v_, src_)
-                body = ast.parse(src_, mode="eval").body
-    if body is None: raise AnalysisError("span sort key is neither a lambda nor a local function with one return")
-    def signs(e):
-        """signs of (start, end) in the sort key"""
-        u = ast.unparse(e).replace(" ", "")
-        if u == "%s[0]" % arg: return (1, 1)
-        if isinstance(e, ast.Tuple) and len(e.elts) == 2:
-            r = []
-            for i, x in enumerate(e.elts):
-                neg = isinstance(x, ast.UnaryOp) and isinstance(x.op, ast.USub); core = x.operand if neg else x
-                if ast.unparse(core).replace(" ", "") != "%s[0][%d]" % (arg, i): raise AnalysisError("unsupported span sort key: " + u)
-                r.append(-1 if neg else 1)
-            return tuple(r)
-        raise AnalysisError("unsupported span sort key: " + u)
-    sg = signs(body); sg = tuple(-x for x in sg) if rev else sg
-    if sg != (-1, 1): out.append(Finding("C34", "C34.d", M, "parse_tree_to_objgraph", ast.unparse(so), "spans ordered (start %s, end %s); contained spans must precede their containers (start descending, end ascending)" % ("desc" if sg[0] < 0 else "asc", "desc" if sg[1] < 0 else "asc")))
+    # decided by evaluating the sort key (sa/pyeval.py) on sample spans: contained spans come before their containers
+    from sa import pyeval as _pe
+    kexp = kws.get("key")
+    if kexp is None: raise AnalysisError("span ordering without a key")
+    pairs = ".items()" in ast.unparse(sem.info(drv).expand(so.args[0], at=so)).replace(" ", "") if so.args else False
+    spans = [(0, 10), (0, 4), (2, 4), (2, 3), (5, 9), (5, 10)]
+    def keyval(sp):
+        arg_v = [list(sp), "obj"] if pairs else list(sp)
+        if isinstance(kexp, ast.Lambda): return _pe.evaluate(kexp.body, {kexp.args.args[0].arg: arg_v})
+        if isinstance(kexp, ast.Name):
+            kf = next((n for n in ast.walk(drv) if isinstance(n, ast.FunctionDef) and n.name == kexp.id), None)
+            if kf is not None and kf.args.args: return _pe.run_block(kf.body, {kf.args.args[0].arg: arg_v})
+        raise AnalysisError("span sort key is neither a lambda nor a local function")
+    try: order = sorted(spans, key=lambda sp: keyval(sp), reverse=rev)
+    except _pe.Unsupported as e: raise AnalysisError("span sort key outside the evaluated subset: %s" % e)
+    want = sorted(spans, key=lambda sp: (-sp[0], sp[1]))
+    okd_ = order == want
+    ob("C34", "C34.d", M, "parse_tree_to_objgraph", "span order on sample spans: %s" % order, okd_)
+    if not okd_: out.append(Finding("C34", "C34.d", M, "parse_tree_to_objgraph", " ".join(ast.unparse(so).split())[:100], "sample spans are ordered %s; contained spans must precede their containers (start descending, end ascending: %s)" % (order, want)))
     return inst, out
 def _depends_on(expr, rootname, region, depth=0):
     """does expr data-depend on variable rootname via local assignments in region (flow-insensitive, all defs)"""
